@@ -91,6 +91,7 @@ pub struct Stats {
     pub violations: Vec<serde_json::Value>,
     pub known: Vec<serde_json::Value>,
     pub notes: Vec<String>,
+    pub per_key: std::collections::BTreeMap<String, u64>,
 }
 impl Stats {
     pub fn case(&mut self, canonical: &str, nontrivial: bool) {
@@ -101,8 +102,15 @@ impl Stats {
     pub fn add(&mut self, key: &str, n: u64) { *self.dist.entry(key.to_string()).or_insert(0) += n; }
     pub fn sample(&mut self, v: serde_json::Value) { if self.samples.len() < 5 { self.samples.push(v); } }
     /// violations recorded or dropped so far
-    pub fn violations_seen(&self) -> u64 { self.violations.len() as u64 + self.dist.get("violations_dropped").cloned().unwrap_or(0) }
-    pub fn violation(&mut self, v: serde_json::Value) { if self.violations.len() < 400 { self.violations.push(v); } else { self.bump("violations_dropped"); } }
+    pub fn violations_seen(&self) -> u64 { self.violations.len() as u64 + self.dist.get("violations_dropped").cloned().unwrap_or(0) + self.dist.get("violations_repeated_not_listed").cloned().unwrap_or(0) }
+    /// at most 12 violations are kept per (kind, class, dialect, construct, function) so that a frequent class
+    /// does not crowd the others out of the report
+    pub fn violation(&mut self, v: serde_json::Value) {
+        let key = ["kind", "class", "dialect", "construct", "function", "entry"].iter().map(|k| v.get(*k).map(|x| x.to_string()).unwrap_or_default()).collect::<Vec<_>>().join("|");
+        let n = self.per_key.entry(key).or_insert(0); *n += 1;
+        if *n > 12 { self.bump("violations_repeated_not_listed"); return; }
+        if self.violations.len() < 400 { self.violations.push(v); } else { self.bump("violations_dropped"); }
+    }
     pub fn to_json(&self, rule: &str) -> serde_json::Value {
         serde_json::json!({
             "evaluations": self.evaluations,
